@@ -88,6 +88,10 @@ class Transformer:
         self.until_year = until_year
         self.until_at_granularity = until_at_granularity
         self.offset_granularity = offset_granularity
+        # The DST offset of a ZoneRule (SAVE) or ZoneEra (RULES) is stored in
+        # 15-minute units in both the basic and the extended tables, even when
+        # STDOFF is kept at a finer granularity.
+        self.delta_granularity = max(offset_granularity, 900)
         self.strict = strict
 
         self.original_zone_count = len(zones_map)
@@ -702,14 +706,14 @@ class Transformer:
                         break
 
                     rules_delta_seconds_truncated = truncate_to_granularity(
-                        rules_delta_seconds, self.offset_granularity)
+                        rules_delta_seconds, self.delta_granularity)
                     if rules_delta_seconds != rules_delta_seconds_truncated:
                         if self.strict:
                             valid = False
                             _add_reason(
                                 removed_zones, name,
                                 f"RULES delta offset '{rules_string}' must be "
-                                f"multiples of '{self.offset_granularity}' "
+                                f"multiples of '{self.delta_granularity}' "
                                 f"seconds")
                             break
                         else:
@@ -1305,21 +1309,21 @@ class Transformer:
 
                 # Truncate to requested granularity.
                 delta_seconds_truncated = truncate_to_granularity(
-                    delta_seconds, self.offset_granularity)
+                    delta_seconds, self.delta_granularity)
                 if delta_seconds != delta_seconds_truncated:
                     if self.strict:
                         valid = False
                         _add_reason(
                             removed_policies, name,
                             f"deltaOffset '{delta_offset}' must be "
-                            f"a multiple of '{self.offset_granularity}' "
+                            f"a multiple of '{self.delta_granularity}' "
                             f"seconds")
                         break
                     else:
                         _add_reason(
                             notable_policies, name,
                             f"deltaOffset '{delta_offset}' truncated to"
-                            f"a multiple of '{self.offset_granularity}' "
+                            f"a multiple of '{self.delta_granularity}' "
                             f"seconds")
 
                 # Check that delta seconds can fit in a 4-bit timeCode field
